@@ -35,10 +35,13 @@ CORNERS = [
     "float16 F = -65504", "float32 F = 3.5e38", "int2 I = -2", "int2 I = -3", "uint1 U = 1", "uint1 U = 2", "uint8 S = 'ab'", "uint8 S = ''",
     "@print " + "1" * 4400, "@print 1." + "1" * 4400, "uint8 LONG = " + "9" * 4400, "uint8[" + "9" * 4400 + "] long_cap", "@print 0x" + "f" * 4400,
     "@print " + "0" * 4400, "@assert " + "7" * 4301 + " > 0", "@extent " + "8" * 4400,
+    "uint" + "9" * 4400 + " wide", "int" + "9" * 4400 + " wide", "float" + "9" * 4400 + " wide", "void" + "9" * 4400, "truncated uint" + "9" * 4400 + " w",
+    "uint8[<=3] arr_\nuint" + "1" * 4301 + " w2", "@extent 10 ** 5000 + 1", "@extent 10 ** 5000", "@extent 8 * 10 ** 4400", "@extent -(10 ** 5000)", "@extent 10 ** 5000 / 3",
     "uint8 a # \x00 control in a comment", "uint8 é", "uint8 a\x0bb", "\ufeffuint8 a", "uint8 a\x0c", "uint8\u00a0a", "uint8 a\u2028uint8 b",
 ]
-SVC_CORNERS = ["@print %s._extent_", "@print %s._bit_length_", "%s svc_field", "%s[2] svc_arr", "@assert %s.nope == 1", "@print %s == %s"]
-STRAY_NAMES = ["README.md", "Foo.dsdl", "Foo.1.dsdl", "Foo.1.0.0.0.dsdl", "1.2.Foo.1.0.dsdl", "Foo.x.0.dsdl", "Foo.1.y.dsdl", "abc.Foo.1.0.dsdl",
+SVC_CORNERS = ["%s svc_field\n@print _offset_", "%s svc_field\n@assert _offset_.count > 0", "uint8 pre_svc\n%s svc_field\nuint8[<=_offset_.max + 1] post_svc", "%s[<=2] svc_var\n@print _offset_",
+               "@print %s._extent_", "@print %s._bit_length_", "%s svc_field", "%s[2] svc_arr", "@assert %s.nope == 1", "@print %s == %s"]
+STRAY_NAMES = ["Dir.1.0.dsdl/", "Dir.1.0.uavcan/", "7.Dir.1.0.dsdl/", "Dir.1.0.dsdl/Inner.1.0.dsdl", "Msg.1.0.dsdl/", "README.md", "Foo.dsdl", "Foo.1.dsdl", "Foo.1.0.0.0.dsdl", "1.2.Foo.1.0.dsdl", "Foo.x.0.dsdl", "Foo.1.y.dsdl", "abc.Foo.1.0.dsdl",
                ".1.0.dsdl", "Foo..0.dsdl", "Foo.1..dsdl", ".dsdl", "..dsdl", "nodots.uavcan", "x.Foo.1.0.uavcan", "Foo.1.0.uavcan.dsdl",
                "Foo.-1.0.dsdl", "Foo.1.0 .dsdl", " Foo.1.0.dsdl", "Fo o.1.0.dsdl", "Føø.1.0.dsdl", "Foo.١.0.dsdl", "Foo.1.0.DSDL", "1a.1.0.dsdl",
                "a-b.1.0.dsdl", "uint8.1.0.dsdl", "Foo.0.0.dsdl", "Foo.256.0.dsdl", "9999.Foo.1.0.dsdl", "99999999999999999999.Foo.1.0.dsdl",
@@ -187,7 +190,7 @@ class C13(Check):
             "spliced from another definition, token delete / duplicate / swap / replace, character noise incl. control and "
             "non-ASCII characters, one of ~160 arithmetic / lexical corner fragments or a random constant expression of depth <= 3 over 31 atoms, 17 binary "
             "and 3 unary operators and 7 attributes (bounded magnitude and nesting), service "
-            "types used as values; or one stray directory entry (54 odd file / directory names incl. twins encoding the same "
+            "types used as values; or one stray directory entry (59 odd file / directory names, incl. directories named like definition files, incl. twins encoding the same "
             "name and version). Oracle: the call returns or raises an InvalidDefinitionError whose path names a file of the "
             "workspace; InternalError, any non-pydsdl exception or no progress within the watchdog limit is a violation. "
             "distinct = hash of (fault kind, resulting exception class, target or dependency); non-trivial = the corrupted text "
@@ -195,7 +198,7 @@ class C13(Check):
     TIERS = {"quick": {"runs": 3200, "budget_s": 50}, "thorough": {"runs": 200000, "budget_s": 1200}}
     ASSUMPTIONS = ["bounded magnitude and nesting (pre-filter 'bounded()' in dsim/checks/c13.py): at most one ** per line with an exponent of "
                    "at most 4 digits, bracket depth <= 12, text <= 12000 characters, numeric literals <= 4500 digits",
-                   "not injected: directories or dangling symlinks named like definition files, unreadable files, non-UTF-8 bytes"]
+                   "not injected: dangling symlinks and symlinks to files outside the root directory, unreadable files, non-UTF-8 bytes"]
 
     def generate(self, rng: random.Random, r: int, tier: str) -> dict:
         ws = G.gen_workspace(rng, roots=(1, 2), defs=(2, 6), p_ref=0.6, p_service=0.25, p_const=0.4, p_doc=0.3)
@@ -244,7 +247,10 @@ class C13(Check):
                     p = f["dir"] + "/" + nm
                     if not any(p.startswith(r0["dir"] + "/") for r0 in ws["roots"]):
                         raise InvalidScenario("stray entry outside the roots")
-                    w.write(p, f["text"] if n == 0 or f.get("twin_equal") else "uint16 other_body\n@sealed\n")
+                    if nm.endswith("/"):
+                        os.makedirs(w.abs(p), exist_ok=True)  # a directory whose name looks like a definition file
+                    else:
+                        w.write(p, f["text"] if n == 0 or f.get("twin_equal") else "uint16 other_body\n@sealed\n")
                     stray_paths.append(p)
                 changed = True
                 hot_root = f["root"]
